@@ -307,6 +307,7 @@ func runC17(t *testing.T, spec RunSpec) *Verdict {
 		returned = true
 		s.Logf("Wait returned %s core=%d", got.Kind, num)
 		if m.fatal {
+			s.Fault("worker-fatal-interrupt:" + got.Kind)
 			s.ArmStepBound("after-fatal-interrupt", stepBoundAfterStop)
 		}
 	})
@@ -448,6 +449,7 @@ func planC17(t *testing.T, tier string, seed uint64) ([]RunSpec, error) {
 					b2.Sim = SimParams{StepCostNs: 1000, Quantum: []int64{8, 64}}
 					if !quick(tier) {
 						plan = append(plan, sweep(t, b2, 600, nil)...)
+						plan = append(plan, sweep2(t, b, 400, simrt.Mix(seed, uint64(shape), uint64(n), uint64(late)))...)
 					}
 				}
 			}
